@@ -540,6 +540,7 @@ def wrapup_rule(repo, res):
 UO = "unyt/unit_object.py"
 
 MUTANTS = [
+    Mutant("product-helper-drops-coefficient", AF, "product_helper", 'prod_units = getattr(a, "units", NULL_UNIT) * getattr(b, "units", NULL_UNIT)', '_, prod_units = _multiply_units(getattr(a, "units", NULL_UNIT), getattr(b, "units", NULL_UNIT))', ("C07-R1",)),
     Mutant("var-linear", AF, "var", "a.units**2", "a.units", ("C07-R1",)),
     Mutant("inv-not-inverted", AF, "linalg_inv", "**kwargs) / a.units", "**kwargs) * a.units", ("C07-R1",)),
     Mutant("solve-swapped", AF, "linalg_solve", "* bu\n        / au", "* au\n        / bu", ("C07-R1",)),
